@@ -1009,7 +1009,17 @@ class Interp:
         if any(isinstance(n_, ast.Call) for b_ in st.body for n_ in ast.walk(b_)):
             # how often the body runs, and with what, is not known: whatever its calls do is lost
             self.lost.append((getattr(st, 'lineno', 0), 'for ... in %s' % up(it)[:60], 'loop over an unmodelled iterable'))
+        before_ = dict(env)
+        objs_ = [(o_, dict(o_.attrs)) for o_ in {id(v_): v_ for v_ in env.values() if isinstance(v_, Obj)}.values()]
         self.block(st.body, env, mod)
+        # the body may have run any number of times, or not at all: whatever it rebinds is not known after the loop
+        for k_ in list(env):
+            if k_ not in before_ or env[k_] is not before_[k_]:
+                env[k_] = Unk('name bound in a loop over an unmodelled iterable %s' % up(it)[:60], st)
+        for o_, a0_ in objs_:
+            for k_ in list(o_.attrs):
+                if k_ not in a0_ or o_.attrs[k_] is not a0_[k_]:
+                    o_.attrs[k_] = Unk('attribute stored in a loop over an unmodelled iterable %s' % up(it)[:60], st)
         return None
 
     def _generic_iter(self, itv, st):
@@ -1619,7 +1629,7 @@ class Interp:
             d = {}
             for k, v in zip(e.keys, e.values):
                 kk = self.expr(k, env, mod) if k is not None else None
-                if not isinstance(kk, (str, int)):
+                if not isinstance(kk, (str, int)) and not (k is not None and isinstance(kk, tuple) and all(isinstance(x_, (str, int, float)) or x_ is None for x_ in kk)):
                     return Unk('dict key', e)
                 d[kk] = self.expr(v, env, mod)
             return d
@@ -2407,6 +2417,8 @@ class Interp:
                 t_ = getattr(v, name)
                 return t_.with_(poly=alg.index_at(t_.poly, lab_, srt_))
             return Unk('attribute %s of an interp1d object' % name, e)
+        if isinstance(v, _WhereIdx) and name == 'size' and isinstance(v.mask, Arr) and v.mask.ndim == 1 and v.mask.mask is None:
+            return Arr((), alg.sum_over(v.mask.poly, v.mask.dims[0]), unit=num(1))          # as many positions as the mask holds at
         if isinstance(v, (GenList, _Repeat, _WhereIdx)):
             return BoundExt(v, name)
         if isinstance(v, (list, dict, str, tuple, bytes, _ArrSelect)):
@@ -2466,6 +2478,20 @@ class Interp:
             k = self.expr(e.slice, env, mod)
             if isinstance(k, (str, int)) and k in v:
                 return v[k]
+            if isinstance(k, tuple) and all(isinstance(x_, (str, int, float)) or x_ is None or (isinstance(x_, Arr) and x_.ndim == 0 and x_.mask is None and _is_boolean(x_.poly)) for x_ in k):
+                # a key made of several parts, some of them flags decided by the data: the entry for each way the flags can fall, chosen by the flags
+                def pick_(done, rest):
+                    if not rest:
+                        if tuple(done) in v:
+                            return v[tuple(done)]
+                        raise PyRaise('KeyError', repr(tuple(done)))
+                    if isinstance(rest[0], Arr):
+                        if rest[0].poly.is_const():
+                            return pick_(done + [bool(rest[0].poly.const_value())], rest[1:])
+                        return merge_val(pick_(done + [True], rest[1:]), pick_(done + [False], rest[1:]), rest[0].poly, e)
+                    return pick_(done + [rest[0]], rest[1:])
+                if all(isinstance(x_, tuple) or isinstance(x_, (str, int)) for x_ in v):
+                    return pick_([], list(k))
             if isinstance(k, Arr) and k.ndim == 0 and k.mask is None and _is_boolean(k.poly) and True in v and False in v:
                 return _Select(k.poly, v[True], v[False])         # d[flag] for a flag decided by the data
             if isinstance(k, (str, int, type(None), Foreign)) and all(isinstance(x, (str, int)) for x in v):
@@ -2887,9 +2913,22 @@ class Interp:
             # the next values of a binary file, as a flat array (fewer than asked for, without an error, when the file ends first)
             r_ = args[0].sl_method(self, 'raw_read_array', [kw.get('count', args[2] if len(args) > 2 else None)], {}, e)
             return Unk('np.fromfile on %s' % type(args[0]).__name__, e) if r_ is NotImplemented else r_
+        if name in ('builtins.setattr', 'builtins.delattr') and args and isinstance(args[0], Obj) and len(args) >= 2 and not isinstance(args[1], str):
+            # attribute chosen by a name the analysis does not know: any attribute of the object may have changed
+            for k_ in list(args[0].attrs):
+                args[0].attrs[k_] = Unk('attribute possibly rebound by %s() with a computed name' % last, e)
+            return Unk('%s with a computed attribute name' % last, e)
         if any(isinstance(a, Unk) for a in args):
             return [a for a in args if isinstance(a, Unk)][0]
         if root in ('numpy', 'np'):
+            if last in ('shape', 'ndim', 'size') and len(args) == 1 and not kw and isinstance(args[0], Arr) and args[0].mask is None:
+                v_ = args[0]                                          # np.shape(x) is x.shape
+                if last == 'ndim':
+                    return v_.ndim
+                if last == 'shape':
+                    return Shape(v_.dims)
+                if v_.ndim == 1:
+                    return Arr((), alg.count(v_.dims[0]), unit=num(1))
             if last in ('sum', 'any', 'all', 'max', 'min', 'nanmax', 'nanmin', 'amax', 'amin'):
                 kind = {'amax': 'max', 'amin': 'min'}.get(last, last)
                 return self._reduce(args[0], kw.get('axis', args[1] if len(args) > 1 else None), kind, e)
@@ -3156,6 +3195,9 @@ class Interp:
                 n = args[0]
                 if len(args) == 1 and isinstance(n, int) and not isinstance(n, bool) and 0 <= n <= 64:
                     return self._list_to_arr(list(range(n)))
+                if len(args) in (2, 3) and all(isinstance(a_, int) and not isinstance(a_, bool) for a_ in args) and args[-1] != 0 and 0 < len(range(*args)) <= 64 \
+                        and not (set(kw) - {'dtype'}):
+                    return self._list_to_arr(list(range(*args)))
                 lab = _len_label(n.poly) if isinstance(n, Arr) else None
                 if lab is None and isinstance(n, Arr) and n.ndim == 0:
                     lab = next((l_ for l_, c_ in self.axis_count.items() if c_ == n.poly), None)         # as many positions as an axis created earlier with that count
@@ -3596,7 +3638,9 @@ class Interp:
                     r_ = range(*args)
                     return list(r_) if len(r_) <= 64 else Unk('long range', e)
                 return Unk('range%r' % (tuple(args),), e)
-            if last == 'zip' and len(args) >= 2 and not kw:
+            if last == 'zip' and len(args) >= 2 and set(kw) <= {'strict'} and isinstance(kw.get('strict', False), bool):
+                if kw.get('strict') and all(isinstance(x, (list, tuple)) for x in args) and len({len(x) for x in args}) > 1:
+                    raise PyRaise('ValueError', 'zip() arguments have different lengths (%s)' % up(e)[:60])
                 args = [(x.sl_iter(self) if isinstance(x, Foreign) and x.sl_iter(self) is not NotImplemented else x) for x in args]
                 if all(isinstance(x, (list, tuple)) for x in args):
                     return [tuple(r) for r in zip(*args)]
@@ -3682,6 +3726,8 @@ class Interp:
                 x = args[0]
                 if x is None or isinstance(x, (bool, int, float, str, list, tuple, dict)):
                     return bool(x)
+                if isinstance(x, Arr) and x.ndim == 0 and x.mask is None and any(x.poly == z_ for z_ in self.nonzero):
+                    return True          # (a number the configuration takes to be non-zero)
                 if isinstance(x, Arr) and x.ndim == 0 and x.mask is None:
                     return Arr((), alg.b_not(alg.mk_ind('==0', x.poly)))
                 return Unk('bool(%r)' % (x,), e)
@@ -3820,6 +3866,8 @@ class Interp:
             return x
         if x.poly.is_const():
             return int(x.poly.const_value())
+        if x.ndim == 0 and x.mask is None and alg.is_integer_valued(x.poly):
+            return x                      # a count is an integer already
         return x.with_(poly=alg.mk_fn('int', P(x.poly)))
 
     def _isinstance(self, v, t, node):
@@ -4772,6 +4820,11 @@ def merge_val(a, b, cond, node):
         if a.poly == b.poly:
             return a
         if cond is not None:
+            for c_, x_, y_ in ((cond, a, b), (alg.b_not(cond), b, a)):
+                # "the mask holds somewhere" selecting between y and y-changed-where-the-mask-holds: where it holds nowhere the two are the same
+                em_ = _exists_mask(c_)
+                if em_ is not None and em_[0] in x_.dims and _carries_factor(x_.poly - y_.poly, em_[1]):
+                    return x_ if x_.unit == y_.unit else x_.with_(unit=None)
             return Arr(a.dims, cond * a.poly + alg.b_not(cond) * b.poly, None, a.unit if a.unit == b.unit else None)
     if _is_pyconst(a) and _is_pyconst(b) and a == b and type(a) == type(b):
         return a
@@ -4818,6 +4871,47 @@ def merge_val(a, b, cond, node):
     if isinstance(a, tuple) and isinstance(b, tuple) and len(a) == len(b):
         return tuple(merge_val(x, y, cond, node) for x, y in zip(a, b))
     return Unk('value differs between the branches of a data-dependent if', node)
+
+
+def _exists_mask(cond):
+    """(label, mask polynomial) when ``cond`` says "the mask holds at some position of the axis": any(mask), sum(mask) > 0, sum(mask) != 0; else None"""
+    if not isinstance(cond, Poly):
+        return None
+    alts = [cond]
+    nb = alg.b_not(cond)
+    if nb.is_monomial():
+        (m_, c_), = nb.t.items()
+        if c_ == 1 and len(m_) == 1 and m_[0][1] == 1 and m_[0][0][0] == 'ind' and m_[0][0][1] == '==0':
+            alts.append(alg.mk_ind('<0', -Poly.from_key(m_[0][0][2])))          # a count that is not zero is above zero
+    for c in alts:
+        if not c.is_monomial():
+            continue
+        (m_, k_), = c.t.items()
+        if not (k_ == 1 and len(m_) == 1 and m_[0][1] == 1):
+            continue
+        a = m_[0][0]
+        if a[0] == 'fn' and a[1] == 'any' and len(a) == 3 and a[2][0] == 'B':
+            return a[2][1], Poly.from_key(a[2][2])
+        if a[0] == 'ind' and a[1] == '<0':
+            inner = Poly.from_key(a[2])
+            if inner.is_monomial():
+                (mi_, ci_), = inner.t.items()
+                if ci_ == -1 and len(mi_) == 1 and mi_[0][1] == 1 and mi_[0][0][0] == 'sum':
+                    mk = Poly.from_key(mi_[0][0][2])
+                    if alg.is_integer_valued(mk):
+                        return mi_[0][0][1], mk
+    return None
+
+
+def _carries_factor(p, mk):
+    """every term of ``p`` carries the (single-term, indicator) mask ``mk`` as a factor: p vanishes wherever the mask does not hold"""
+    if not mk.is_monomial():
+        return False
+    (m0, c0), = mk.t.items()
+    if c0 != 1 or not m0 or any(a[0] != 'ind' or e != 1 for a, e in m0):
+        return False
+    need = {a for a, e in m0}
+    return all(need <= {a for a, e in m} for m in p.t)
 
 
 def _is_index_alt(v):
